@@ -99,6 +99,9 @@ func (d *ddbV1) project(item map[string]*dynamodb.AttributeValue, proj *string, 
 
 func (d *ddbV1) GetItemWithContext(_ aws.Context, in *dynamodb.GetItemInput, _ ...request.Option) (*dynamodb.GetItemOutput, error) {
 	d.calls++
+	if vx.Fault("read", "ddb.call") {
+		return nil, awserr.New("RequestError", "send request failed", nil)
+	}
 	if in.TableName == nil || *in.TableName != d.table {
 		return nil, awserr.New(dynamodb.ErrCodeResourceNotFoundException, "Requested resource not found", nil)
 	}
@@ -120,6 +123,9 @@ func (d *ddbV1) GetItemWithContext(_ aws.Context, in *dynamodb.GetItemInput, _ .
 
 func (d *ddbV1) QueryWithContext(_ aws.Context, in *dynamodb.QueryInput, _ ...request.Option) (*dynamodb.QueryOutput, error) {
 	d.calls++
+	if vx.Fault("read", "ddb.call") {
+		return nil, awserr.New("RequestError", "send request failed", nil)
+	}
 	if in.TableName == nil || *in.TableName != d.table {
 		return nil, awserr.New(dynamodb.ErrCodeResourceNotFoundException, "Requested resource not found", nil)
 	}
